@@ -119,15 +119,33 @@ pub fn build_cli() -> Result<(), String> {
     run_build(c, "build of the seed binary")
 }
 
-// Builds the in-process worker from the same sources.
-pub fn build_worker() -> Result<(), String> {
-    let mut c = Command::new("cargo");
-    c.arg("build").arg("--quiet").arg("-p").arg("seedlink")
-        .arg("--manifest-path").arg(format!("{VERIF}/harness/Cargo.toml"))
-        .arg("--target-dir").arg(harness_target_dir())
-        .env("SEED_REPO", repo_dir());
-    run_build(c, "build of the in-process worker")
+// Builds the in-process worker from the same sources. If the copy of
+// `main()`'s diagnostic formatting no longer compiles against the repository
+// (a refactor of main.rs), progressively smaller builds are tried: without
+// the in-process `run`, then without the repository's parse-error renderer.
+// Returns the capability string of the build that worked.
+pub fn build_worker() -> Result<String, String> {
+    let mut last = String::new();
+    for (flags, caps) in [(vec![], "run,perr"), (vec!["--no-default-features", "--features", "perr"], "perr"), (vec!["--no-default-features"], "")] {
+        let mut c = Command::new("cargo");
+        c.arg("build").arg("--quiet").arg("-p").arg("seedlink")
+            .arg("--manifest-path").arg(format!("{VERIF}/harness/Cargo.toml"))
+            .arg("--target-dir").arg(harness_target_dir())
+            .env("SEED_REPO", repo_dir());
+        for f in &flags {
+            c.arg(f);
+        }
+        match run_build(c, "build of the in-process worker") {
+            Ok(()) => return Ok(caps.to_string()),
+            Err(e) => last = e,
+        }
+    }
+    Err(last)
 }
+
+static WORKER_RUN: OnceLock<bool> = OnceLock::new();
+pub fn set_worker_can_run(ok: bool) { let _ = WORKER_RUN.set(ok); }
+pub fn worker_can_run() -> bool { *WORKER_RUN.get().unwrap_or(&false) }
 
 // ----------------------------------------------------------------- scratch
 
@@ -459,6 +477,9 @@ pub fn inproc_front(src: &[u8]) -> Result<FrontRes, WorkerErr> {
 // with; a dead or stalled worker is reported as such and has to be classified
 // through the CLI by the caller.
 pub fn inproc_run(src: &[u8]) -> Result<Obs, WorkerErr> {
+    if !worker_can_run() {
+        return Err(WorkerErr::Unavailable);
+    }
     INPROC_RUNS.fetch_add(1, Ordering::Relaxed);
     let r = worker_request(3, src, Duration::from_secs(10))?;
     let nl1 = r.iter().position(|b| *b == b'\n').unwrap_or(0);
